@@ -9,7 +9,7 @@
    All theorems quantify over every history, every behaviour table and every positive random stream. *)
 Require Import ZArith List Bool Lia Sorted.
 Require Import Verif.gen.Consts_loop Verif.LoopModel Verif.LoopProofs_C08a Verif.LoopProofs_C08b Verif.LoopProofs_C08c
-               Verif.LoopProofs_C08d Verif.LoopProofs_C08e Verif.LoopProofs_C08f Verif.LoopProofs_C08g.
+               Verif.LoopProofs_C08d Verif.LoopProofs_C08e Verif.LoopProofs_C08f Verif.LoopProofs_C08g Verif.LoopProofs_C08h.
 Import ListNotations.
 Open Scope Z_scope.
 
@@ -75,6 +75,12 @@ Proof. exact stale_timer_rejected. Qed.
 Theorem C08_stale_poll_event_dropped : forall st data bits n e, nth_error (polls st) (Z.to_nat (data mod TWO32)) = Some e ->
   p_check e <> data / TWO32 -> poll_event (data, bits) (n, st) = (n, emit EvUsleep st).
 Proof. exact stale_poll_event_dropped. Qed.
+
+(* timers, liveness step: after the timer source's turn (expire_the_timers) no heap entry is left whose expiry lies before the
+   clock - every due timer has been moved to the job list of its priority (C10 bounds its wait there; at-most-once above) *)
+Theorem C08_timer_due_is_queued : forall st j t e,
+  nth_error (timers (snd (expire_the_timers st))) j = Some t -> t_exp t = Some e -> now (snd (expire_the_timers st)) <= e.
+Proof. exact expire_no_due. Qed.
 
 (* descriptors: an event for a watched (ACTIVE) entry puts it on the job list of its priority (C10: it is then dispatched
    within three turns); after the callback the entry is a tombstone when the callback returned a negative value, is
@@ -142,6 +148,7 @@ Print Assumptions C08_timer_del_logs.
 Print Assumptions C08_signal_del_logs.
 Print Assumptions C08_stale_timer_rejected.
 Print Assumptions C08_stale_poll_event_dropped.
+Print Assumptions C08_timer_due_is_queued.
 Print Assumptions C08_fd_event_queues.
 Print Assumptions C08_fd_after_callback.
 Print Assumptions C08_signal_one_clone_per_delivery.
